@@ -413,5 +413,90 @@ func runC14() {
 	s.Dist["exhaustive_pairs"] = nEx
 	s.Dist["random"] = nRand
 	s.Extra = map[string]interface{}{"random_cases": randomCases}
+	c14Reuse(r, s)
 	writeSummary(s)
+}
+
+// c14Reuse: a resolver that is used for several values answers each time as a fresh resolver built from the same callbacks
+// would (the first matching callback in registration order, nothing else): lists with duplicates, three values in a row.
+func c14Reuse(r *rng, s *Summary) {
+	ctx := context.Background()
+	var pool []hierRow
+	for _, h := range hierRows {
+		switch h.Name {
+		case "Note", "Person", "Create", "Like", "Collection":
+			pool = append(pool, h)
+		}
+	}
+	if len(pool) == 0 {
+		return
+	}
+	n := 0
+	for it := 0; it < 80; it++ {
+		k := 3 + r.intn(4)
+		var rows []hierRow
+		for j := 0; j < k; j++ {
+			rows = append(rows, pool[r.intn(len(pool))])
+		}
+		mk := func(log *[]string) []interface{} {
+			var cbs []interface{}
+			for i, row := range rows {
+				cbs = append(cbs, row.CbTag(log, fmt.Sprint(i), nil))
+			}
+			return cbs
+		}
+		var seq []hierRow
+		for j := 0; j < 3; j++ {
+			seq = append(seq, pool[r.intn(len(pool))])
+		}
+		doc := func(v hierRow) map[string]interface{} {
+			return map[string]interface{}{"@context": "https://www.w3.org/ns/activitystreams", "type": v.Name, "id": "https://example.org/reuse"}
+		}
+		for _, kind := range []string{"type", "json"} {
+			resolve := func(cbs []interface{}) func(v hierRow) error {
+				if kind == "type" {
+					res, err := streams.NewTypeResolver(cbs...)
+					if err != nil {
+						return nil
+					}
+					return func(v hierRow) error { return res.Resolve(ctx, valueFor(v.New().VocabularyURI(), v.Name)) }
+				}
+				res, err := streams.NewJSONResolver(cbs...)
+				if err != nil {
+					return nil
+				}
+				return func(v hierRow) error { return res.Resolve(ctx, doc(v)) }
+			}
+			var logSame []string
+			one := resolve(mk(&logSame))
+			if one == nil {
+				continue
+			}
+			var same, fresh, names []string
+			for _, v := range seq {
+				before := len(logSame)
+				e := one(v)
+				same = append(same, fmt.Sprint(logSame[before:], e))
+				names = append(names, v.Name)
+			}
+			for _, v := range seq {
+				var lg []string
+				f := resolve(mk(&lg))
+				e := f(v)
+				fresh = append(fresh, fmt.Sprint(lg, e))
+			}
+			n++
+			s.Evaluations++
+			if fmt.Sprint(same) != fmt.Sprint(fresh) {
+				var cbn []string
+				for _, row := range rows {
+					cbn = append(cbn, row.Name)
+				}
+				s.Violations = append(s.Violations, Violation{What: fmt.Sprintf("a %s resolver with callbacks %v, used for %v in turn, answers %v; a fresh resolver answers %v each time", kind, cbn, names, same, fresh),
+					Sig: "C14:reuse:" + kind, Replay: map[string]interface{}{"resolver": kind, "callbacks": cbn, "values": names, "reused": same, "fresh": fresh}})
+				return
+			}
+		}
+	}
+	s.Dist["resolvers_used_three_times"] = n
 }
